@@ -160,6 +160,16 @@ theorem facts_surface_sizes :
       ("textfield.TextField.Draw", .maxW, .lit 1)] := by
   decide
 
+open VaxisModel.Gen.SurfaceFacts in
+/-- The condition of the ellipsis branch of the two hard-wrap `Draw` loops, as the model interprets it
+(`Layout.evalEll`): `truncate && col+uint16(char.Width) >= ctx.Max.Width`, `truncate` = the int sum of
+the widths of the line exceeds `Max.Width` (since /repo 65842f0, finding F316 of C16; before:
+`[.reach, .idxLtLen]`).  The model follows whatever conjuncts the source has; C16's content theorems
+(`Props.C16Draw.hard_draw_rows`) need exactly these. -/
+theorem facts_ellipsis_cond :
+    textEllipsisCond = [.lineTooWide, .reach] ∧ richEllipsisCond = [.lineTooWide, .reach] := by
+  decide
+
 /-- Text / RichText (either wrap mode), any scanned lines, any constraint: the surface is no
 larger than the maximum and Draw does not panic. -/
 theorem size_le_max_text (m : TextMode) (hm : m.sizeStrict = true) (c : Ctx) (lines : List (List Cell)) :
